@@ -700,6 +700,8 @@ def explore(ctx, art):
     for c in cases[:1] + [c for c in cases if "random" in c.kinds][:2]:
         ctx.sample({"history": c.lines[:14], "kinds": sorted(c.kinds)})
     guard_level(ctx, art)
+    glue_level(ctx, art, "TestC04TcpServer", "tcpsrv")
+    glue_level(ctx, art, "TestC04UdpDial", "udpdial")
     if ctx.tier == "thorough":
         conn_level(ctx, art)
         with common.Lock():
@@ -753,6 +755,43 @@ def guard_level(ctx, art, exe=None, realtime=False, tag="guard"):
                     {"input": ["go test -run TestC04Guard (harness/c04/guard_test.go)"], "scenario": scen, "realtime": realtime, "seed": ctx.seed,
                      "observed": l, "expected": "the handler reads exactly one of the supplied bodies, complete"}))
     ctx.cov[tag + "_scenarios"] = n
+
+
+def glue_level(ctx, art, test, tag):
+    """the same property on connections the library's own entry points create through options (harness/c04/glue_test.go)"""
+    import subprocess
+    outp = os.path.join(ctx.work, tag + ".out")
+    if os.path.exists(outp):
+        os.remove(outp)
+    env = dict(os.environ, VERIF_OUT=outp, VERIF_SEED=str(ctx.seed), VERIF_TIER=ctx.tier)
+    env.pop("VERIF_SCENARIO", None)
+    try:
+        p = subprocess.run([art["test"], "-test.run", "^%s$" % test, "-test.timeout", "300s"], cwd=ctx.work, env=env,
+                           stdout=subprocess.PIPE, stderr=subprocess.STDOUT, text=True, timeout=400)
+    except subprocess.TimeoutExpired:
+        ctx.broken.append(("correspondence", "%s timed out" % test, ""))
+        return
+    out = open(outp).read().splitlines() if os.path.exists(outp) else []
+    if p.returncode != 0 or not out:
+        ctx.broken.append(("correspondence", "%s failed rc=%d" % (test, p.returncode), p.stdout[-2000:]))
+        return
+    nbad = 0
+    for l in out:
+        f = l.split()
+        res = f[-1].split("=", 1)[1]
+        ctx.count("%s-%s" % (tag, res.split("-")[0]))
+        if res.startswith("violates"):
+            nbad += 1
+            if nbad <= 2:
+                scen = " ".join(f[1:-1])
+                ctx.violations.append(common.Violation(
+                    "exact", "C04:%s: %s" % (tag, re.sub(r"\d+", "N", res)[:90]),
+                    "%s (%s): %s" % (test, scen, res),
+                    {"input": ["go test -run %s (harness/c04/glue_test.go)" % test], "scenario": scen, "test": test, "seed": ctx.seed,
+                     "observed": l, "expected": "every application is handed exactly what its own peer supplied, once, or the exchange fails"}))
+    ctx.cov[tag + "_scenarios"] = len(out)
+    if tag == "udpdial" and all("skipped" in l for l in out):
+        ctx.notes.append("udp.Dial scenarios skipped: no loopback socket in this environment")
 
 
 def conn_level(ctx, art):
@@ -821,7 +860,7 @@ def replay(ctx, rep):
         env = dict(os.environ, VERIF_OUT=outp, VERIF_SEED=str(rep.get("seed", ctx.seed)), VERIF_SCENARIO=rep["scenario"], VERIF_TIER="thorough")
         if rep.get("realtime"):
             env["VERIF_REALTIME"] = "1"
-        p = subprocess.run([art["test"], "-test.run", "^TestC04Guard$"], cwd=ctx.work, env=env, stdout=subprocess.PIPE,
+        p = subprocess.run([art["test"], "-test.run", "^%s$" % rep.get("test", "TestC04Guard")], cwd=ctx.work, env=env, stdout=subprocess.PIPE,
                            stderr=subprocess.STDOUT, text=True, timeout=300)
         out = open(outp).read().splitlines() if os.path.exists(outp) else []
         print("\n".join(out) or p.stdout[-1500:])
